@@ -119,9 +119,46 @@ def run_case(case, rec):
                 ident.check(f'{label} {sel}')
                 rec.state([case['seed'], label])
             check_translate(rec, m, installed, r)
+            check_forms(rec, wn.Wordnet().words(), 'universe')
+        # forms that differ only in their script are different forms
+        entry = {'id': 'sc-e1', 'meta': None, 'lemma': {'writtenForm': 'kniga', 'partOfSpeech': 'n', 'script': None},
+                 'forms': [{'writtenForm': 'kniga', 'script': 'Latn'}, {'writtenForm': 'kniga', 'script': 'Cyrl'},
+                           {'writtenForm': 'knigi', 'script': 'Cyrl'}, {'writtenForm': 'knigi', 'script': None}],
+                 'senses': [{'id': 'sc-s1', 'synset': 'sc-ss1', 'meta': None}]}
+        for f in [entry['lemma']] + entry['forms']:
+            if f['script'] is None:
+                del f['script']
+        lex = {'id': 'sc', 'label': 'scripts', 'language': 'sr', 'email': 'e', 'license': 'l', 'version': '1', 'meta': None,
+               'entries': [entry], 'synsets': [{'id': 'sc-ss1', 'ili': '', 'partOfSpeech': 'n', 'meta': None}]}
+        with env.FreshDB():
+            wnio.add(wnio.write_resource({'lmf_version': '1.1', 'lexicons': [lex]}, work, random.Random(3), name='scripts.xml'))
+            check_forms(rec, wn.Wordnet('sc:1').words(), 'scripts')
     finally:
         env.rmtree(work)
     rec.done(case['seed'], nontrivial=True, sample={'installed_in_order': [universe.spec(u[n]) for n in order]})
+
+
+def check_forms(rec, words, label):
+    """Form objects are values: two are equal iff they have the same text and the same script (then they hash alike);
+    the lemma reached through lemma() and through forms()[0] is the same form"""
+    forms = []
+    for w_ in words[:40]:
+        fs = w_.forms()
+        forms.extend(fs[:6])
+        lem = w_.lemma()
+        rec.event('identity.forms')
+        if not (lem == fs[0] and hash(lem) == hash(fs[0]) and lem.script == fs[0].script and lem.id == fs[0].id):
+            rec.violation('same-entity-unequal', f'{label}: lemma() of {w_.id} and forms()[0] differ: {lem!r}/{lem.script} vs {fs[0]!r}/{fs[0].script}')
+    for a, b in itertools.combinations(forms, 2):
+        rec.event('identity.form-pairs')
+        same = str(a) == str(b) and a.script == b.script
+        if (a == b) != same or (a != b) == same:
+            key = 'same-entity-unequal' if same else 'different-entities-equal'
+            rec.violation(key, f'{label}: forms {str(a)!r} (script {a.script}) and {str(b)!r} (script {b.script}): == gives {a == b}')
+            break
+        if same and hash(a) != hash(b):
+            rec.violation('same-entity-hash-differs', f'{label}: equal forms {str(a)!r} hash differently')
+            break
 
 
 def check_translate(rec, m, installed, r):
